@@ -20,7 +20,7 @@ OPAQUE = ["SetW", "SetPW"]      # operations outside the Gallina model (law only
 def st_term(s):
     return C("mkSt", s["x"], (s["t"][0], s["t"][1]), list(s["l"]), [(k, v) for k, v in s["d"]], list(s["s"]),
              opt(s["f"]), opt(s["m"]), s["p"], opt(s["c"]), s["ad"], opt(s["y"]), s["ad2"],
-             Nat(s["oreg"]), list(s["zz"]), s["ade"], opt(s["pv"]), s["dpv"])
+             Nat(s["oreg"]), list(s["zz"]), s["ade"], opt(s["pv"]), s["dpv"], opt(s["ch"]), bool(s["chreg"]), s["u"])
 
 
 def obs_term(o):
@@ -47,9 +47,9 @@ def _in_call_order(raw, echo):
 
 def op_term(op, echo, before):
     k = op[0]
-    if k in ("SetX", "LAppend", "SAdd", "SetP", "SetY", "SetXQ", "SetPV", "SetDPV"):
+    if k in ("SetX", "LAppend", "SAdd", "SetP", "SetY", "SetXQ", "SetPV", "SetDPV", "SetCV", "SetU"):
         return C(k, op[1])
-    if k == "DelPV":
+    if k in ("DelPV", "RegDot", "UnregDot", "ReadCh"):
         return C(k)
     if k in OPAQUE:
         return C("Opaque", Nat(OPAQUE.index(k)))
@@ -122,8 +122,11 @@ def nontrivial(case, obs):
 
 def ncalls(op):
     k = op[0]
-    if k in ("SetX", "LAppend", "LInsert", "SAdd", "ReadF", "ReadM", "ReadP", "SetP", "ReadC", "SetXQ", "SetPV", "SetDPV"):
+    if k in ("SetX", "LAppend", "LInsert", "SAdd", "ReadF", "ReadM", "ReadP", "SetP", "ReadC", "SetXQ", "SetPV", "SetDPV",
+             "RegDot", "ReadCh", "SetCV", "SetU"):
         return 1
+    if k == "UnregDot":
+        return 0
     if k == "DelPV":
         return 0
     if k == "SUpdate2":
@@ -170,9 +173,12 @@ def gen_op(rnd):
                     "ReadF", "ReadM", "ReadP", "SetP", "ReadC", "ReadC", "SetAd", "SetAd", "SIxor", "SIxor", "SSymDiff",
                     "SetY", "SetY", "ReadY", "SetAd2", "SetAd2", "SetXQ", "SetXQ", "ObsRemove", "ObsAdd", "AddZ", "AddZ",
                     "SetZ", "SetZ", "SUpdate2", "SUpdate2", "SetAdE", "SetAdE", "SetW", "SetW", "SetPW",
-                    "SetPV", "SetPV", "SetDPV", "SetDPV", "DelPV"])
-    if k in ("SetX", "LAppend", "SAdd", "SetY", "SetXQ", "SetPV", "SetDPV"):
+                    "SetPV", "SetPV", "SetDPV", "SetDPV", "DelPV", "RegDot", "RegDot", "UnregDot", "ReadCh", "SetCV",
+                    "SetCV", "SetU", "SetU"])
+    if k in ("SetX", "LAppend", "SAdd", "SetY", "SetXQ", "SetPV", "SetDPV", "SetU"):
         return [k, item()]
+    if k == "SetCV":
+        return [k, rnd.randint(0, 9)]
     if k == "SetZ":
         return [k, rnd.randint(0, 3), rnd.randint(0, 9)]
     if k == "SUpdate2":
@@ -210,6 +216,15 @@ def gen_op(rnd):
     return [k]
 
 
+def _call_exns(op):
+    """Exception classes injected into the deciding callbacks of `op`.  A TraitError raised by the first alternative
+    of a Union is by definition a rejection (the next alternative is tried), not a fault: for SetU of a value the
+    second alternative accepts (string atoms) it is not injected."""
+    if op[0] == "SetU" and op[1] >= 100:
+        return [e for e in EXNS if e != "TraitError"]
+    return EXNS
+
+
 def gen_plan(rnd, op):
     if op[0] in ("AddZ", "SetZ"):
         # the user filter runs inside the trait_added notification there (handler context, exceptions contained):
@@ -223,8 +238,9 @@ def gen_plan(rnd, op):
         return None
     if r < 0.8:
         n = ncalls(op)
-        return ["call", rnd.randint(0, max(n, 1)) if rnd.random() < 0.85 else rnd.randint(0, n + 2), rnd.choice(EXNS)]
-    return ["handler", rnd.randint(0, 8), rnd.choice(EXNS)]
+        return ["call", rnd.randint(0, max(n, 1)) if rnd.random() < 0.85 else rnd.randint(0, n + 2),
+                rnd.choice(_call_exns(op))]
+    return ["handler", rnd.randint(0, 10), rnd.choice(EXNS)]
 
 
 def gen_case(rnd, ctx, maxlen):
@@ -249,16 +265,17 @@ TEMPLATES = [["SetX", 5], ["SetX", 1], ["SetX", 101], ["SetT", 3, 4], ["SetT", 3
              ["ReadY"], ["SetAd2", 0, 3], ["SetAd2", 1, 3], ["SetAd2", 2, 3], ["SetAd2", None, 3],
              ["SetXQ", 5], ["SetXQ", 100], ["ObsRemove"], ["ObsAdd"], ["SUpdate2", [4, 5], [6, 7]],
              ["SUpdate2", [4], [100, 5]], ["SetAdE", 1, 3], ["SetAdE", 0, 3], ["SetW", 5], ["SetPW", 1, 6],
-             ["SetPV", 5], ["SetPV", 101], ["SetDPV", 6], ["SetDPV", 102], ["DelPV"]]
+             ["SetPV", 5], ["SetPV", 101], ["SetDPV", 6], ["SetDPV", 102], ["DelPV"],
+             ["RegDot"], ["ReadCh"], ["SetCV", 3], ["SetU", 5], ["SetU", 103], ["UnregDot"]]
 FOLLOW = [["SetX", 6], ["LExtend", [1, 2]], ["DUpdate", [[2, 2]]], ["SUpdate", [5]], ["ReadF"], ["ReadM"], ["ReadC"],
           ["SetP", 8], ["SetAd", 2, 4], ["SIxor", [1, 8]], ["SetY", 7], ["SetAd2", 1, 5], ["AddZ"], ["SetZ", 0, 4],
           ["SetX", 3], ["SetW", 7], ["SetPW", 0, 2], ["SetW", 4], ["SetDPV", 4], ["SetPV", 6], ["SetDPV", 8], ["DelPV"],
-          ["SetDPV", 2]]
+          ["SetDPV", 2], ["SetCV", 4], ["RegDot"], ["SetCV", 6], ["UnregDot"], ["SetCV", 7], ["SetU", 8], ["SetU", 102]]
 
 
 HANDLERS_OF = {"SetX": [0, 1, 2, 7, 3], "LAppend": [3, 4, 0], "LExtend": [3, 4], "LIadd": [3, 4], "LInsert": [3, 4],
                "LSetSlice": [3, 4], "LAssign": [3, 4], "SetY": [5, 0], "SetXQ": [0, 2], "SetW": [8, 0], "SetPW": [8],
-               "SetPV": [9, 0], "SetDPV": [9, 0]}
+               "SetPV": [9, 0], "SetDPV": [9, 0], "SetCV": [10, 0]}
 
 
 def systematic():
@@ -269,7 +286,7 @@ def systematic():
         n = ncalls(tpl)
         ks = range(n + 1) if n <= 8 else [0, 1, 2, 9, 19, 30, 36, 37, 38, 39, n]
         for k in ks:
-            for e in EXNS:
+            for e in _call_exns(tpl):
                 cs.append(dict(ops=[[tpl, ["call", k, e]]] + [[f, None] for f in FOLLOW]))
         for j in HANDLERS_OF.get(tpl[0], [0]):       # the handlers this operation can reach (+ one it cannot, as control)
             for e in EXNS:
